@@ -203,6 +203,43 @@ def run_comment_raw(P, rep, rule="R-BLOCKBODY"):
         rep.ok(rule, "RawBlock::parse", P.where(fn), "body = escape_liquid(false).to_owned(), stored unmodified")
 
 
+def run_escape_span(P, rep, rule="R-BLOCKBODY"):
+    """escape_liquid returns the text from the start of the first body element to the END of the last element before the
+    closing tag: the two positions handed to `Position::span` derive from `Span::start_pos` and `Span::end_pos` of body
+    elements only.  The grammar gives the blanks in front of `{%-` to the closing tag's own span, so computing the end from
+    the closer (its start, a sub-span, an offset) puts whitespace back that the trim marker removes."""
+    from origins import backward_slice
+    fns = P.by_key("<liquid_core::parser::parser::TagBlock>::escape_liquid")
+    if len(fns) != 1:
+        rep.anchor_missing(rule, "TagBlock::escape_liquid (span)")
+        return
+    fn = fns[0]
+    spans = [t for bi, t in P.calls(fn) if t.get("f") and t["f"]["id"].rsplit("::", 1)[1] == "span" and "Position" in t["f"]["name"]]
+    if len(spans) != 1:
+        rep.viol(rule, "escape_liquid span", P.where(fn), "expected one Position::span call building the body, found %d: re-derive" % len(spans))
+        return
+    t = spans[0]
+    probs = []
+    for which, arg, want in (("start", t["args"][0], "start_pos"), ("end", t["args"][1], "end_pos")):
+        ol = op_local(arg)
+        locs, calls = backward_slice(fn, ol[0]) if ol else (set(), [])
+        lasts = {c["f"]["id"].rsplit("::", 1)[1] for c in calls if c.get("f")}
+        if want not in lasts:
+            probs.append("the %s of the body does not come from Span::%s" % (which, want))
+        extra = lasts - {"start_pos", "end_pos", "as_span", "expect", "unwrap", "clone", "next", "as_ref", "deref"}
+        if extra - ({"end_pos"} if which == "start" else {"start_pos"}) or (which == "end" and "start_pos" in lasts) or (which == "start" and "end_pos" in lasts):
+            probs.append("the %s of the body is computed through %s, not taken from a body element's span" % (which, sorted(extra | (lasts & {"start_pos", "end_pos"}) - {want})))
+        for b in fn.blocks:
+            for st in b["s"]:
+                if st[0] == "a" and st[1][0] in locs and st[2]["k"] == "bin":
+                    probs.append("the %s of the body involves arithmetic (%s)" % (which, st[2]["op"]))
+    if probs:
+        rep.viol(rule, "escape_liquid span", P.where(fn, t["line"]), "; ".join(sorted(set(probs))) +
+                 ": the verbatim body must end where the last element before the closing tag ends (the closing tag's span owns the blanks a `{%-` trims)")
+    else:
+        rep.ok(rule, "escape_liquid span", P.where(fn, t["line"]), "body = first element's start_pos .. previous element's end_pos")
+
+
 def run_escape_closer(P, rep, rule="R-BLOCKBODY"):
     """escape_liquid closes the block only on an end tag WITHOUT further tokens (`{% endraw x %}` inside a raw body is text)."""
     fns = P.by_key("<liquid_core::parser::parser::TagBlock>::escape_liquid")
@@ -547,3 +584,67 @@ def run_tag_args_kept(P, rep, rule="R-KEEPVALS"):
                     rep.ok(rule, site, P.where(fn, t["line"]), "every success path pushes the pair before reading on")
         if n == 0:
             rep.ok(rule, label + " arguments", P.where(fn), "no argument loop with values here (not decided by this rule)")
+
+
+# ---------------------------------------------------------------------------------------
+# R-CASEARM: a `when` starts an arm with an empty body
+
+def run_case_arm_reset(P, rep, rule="R-CASEARM"):
+    """CaseBlock::parse collects the elements of the current arm in one vector (the one `Vec::push` receives parsed elements
+    into).  Every `when` starts a new arm: on every path to the `parse_condition` call of the `when` arm the collector has been
+    emptied inside the loop (`= Vec::new()` / `mem::take`), whether or not an arm was open — otherwise whatever stands between
+    `{% case %}` and the first `{% when %}` is rendered as part of the first arm."""
+    key = "<liquid_lib::stdlib::blocks::case_block::CaseBlock as %s>::parse" % PB
+    fns = P.by_key(key)
+    if len(fns) != 1:
+        rep.anchor_missing(rule, key)
+        return
+    fn = fns[0]
+    from mirutil import alias_closure
+    acc = set()
+    for bi, t in P.calls(fn):
+        f = t.get("f")
+        if f and f["id"].rsplit("::", 1)[1] == "push" and "Vec" in f["name"] and t["args"]:
+            ol = op_local(t["args"][0])
+            if ol and "dyn liquid_core::runtime::renderable::Renderable" in P.local_ty(fn, ol[0]):
+                # &mut acc -> acc
+                from mirutil import defs_of
+                for kind, b2, si, d in defs_of(fn, ol[0]):
+                    if kind == "a" and d["k"] == "ref" and not d["p"][1]:
+                        acc.add(d["p"][0])
+    whens = [(bi, t) for bi, t in P.calls(fn) if t.get("f") and t["f"]["id"].endswith("case_block::parse_condition")]
+    if len(acc) != 1 or not whens:
+        rep.anchor_missing(rule, key + " (collector vector x%d, parse_condition calls x%d: re-derive)" % (len(acc), len(whens)))
+        return
+    a = next(iter(acc))
+    refs = alias_closure(fn, [a])
+    resets = set()
+    for bi, t in P.calls(fn):
+        f = t.get("f")
+        if not f:
+            continue
+        last = f["id"].rsplit("::", 1)[1]
+        if t["d"][0] == a and not t["d"][1] and last in ("new", "default", "with_capacity") and "Vec" in f["name"]:
+            resets.add(bi)
+        if last in ("take", "replace") and "mem::" in f["name"] and t["args"] and (op_local(t["args"][0]) or (None,))[0] in refs:
+            resets.add(bi)
+        if last == "clear" and t["args"] and (op_local(t["args"][0]) or (None,))[0] in refs:
+            resets.add(bi)
+    # `acc = Vec::new()` on an existing binding goes through a temporary: `tmp = Vec::new(); drop(acc); acc = move tmp`
+    from mirutil import defs_of as _defs
+    for b2, blk in enumerate(fn.blocks):
+        for st in blk["s"]:
+            if st[0] == "a" and st[1][0] == a and not st[1][1] and st[2]["k"] == "use":
+                src = op_local(st[2]["o"])
+                ds = _defs(fn, src[0]) if src and not src[1] else []
+                if len(ds) == 1 and ds[0][0] == "c" and ds[0][3].get("f") and ds[0][3]["f"]["id"].rsplit("::", 1)[1] in ("new", "default", "with_capacity") \
+                        and "Vec" in ds[0][3]["f"]["name"]:
+                    resets.add(b2)
+    for k, (bi, t) in enumerate(whens):
+        inloop = {r for r in resets if r in P.reach(fn, P.succ(fn)[bi])}
+        if any(P.dominates(fn, r, bi) for r in inloop):
+            rep.ok(rule, "CaseBlock::parse when#%d" % k, P.where(fn, t["line"]), "the arm collector is emptied on every path into the `when` arm")
+        else:
+            rep.viol(rule, "CaseBlock::parse when#%d" % k, P.where(fn, t["line"]),
+                     "the `when` arm can start without the element collector having been emptied (the reset is conditional on an open arm): text between "
+                     "`{% case %}` and the first `{% when %}` becomes part of the first arm")
